@@ -59,7 +59,25 @@ def gen_cases(rng, tier):
                 cases.append({'id': 'c06-spec-%d' % j, 'cfg': cfg, 'hist': h, 'sub': 'lsim', 'spec': kind,
                               'tags': {'variant': variant, 'T': T, 'mode': 'statement-' + kind}})
                 j += 1
+    # the one-shot countdown must keep the processing loop awake: a one-shot key held alone past its timeout, released, then a plain key
+    from checks.common import loop_pairs
+    lp = []
+    for i in range(30 if tier == 'quick' else 600):
+        T = rng.choice([30, 100])
+        variant = rng.choice(['one-shot', 'one-shot-press', 'one-shot-release', 'one-shot-press-pcancel', 'one-shot-release-pcancel'])
+        cfg = '(defsrc a s d)\n(deflayer l0 (%s %d lsft) b c)' % (variant, T)
+        h = ['t3', 'd30', 't%d' % rng.choice([5, T - 1, T + 1, T + 40, 3 * T]), 'u30', 't%d' % rng.choice([1, T // 2, T - 1, T + 1, T + 30]),
+             'd31', 't5', 'u31', 't%d' % rng.choice([5, T + 20]), 'd32', 't3', 'u32', 't%d' % (T + 50)]
+        lp.append({'id': 'c06-loop-%d' % i, 'cfg': cfg, 'hist': h, 'sub': 'ksim', 'tags': {'mode': 'loop-pair', 'variant': variant}})
+    cases += loop_pairs(lp)
     return cases
+
+
+def post(all_results, run_impl, rng, tier, stats):
+    from checks.common import loop_pair_violations
+    v = loop_pair_violations(all_results)
+    stats['loop_pairs'] = sum(1 for c, it, mt in all_results if c.get('loop_mode') == '1')
+    return v
 
 
 def oracle(c, it):
@@ -91,6 +109,7 @@ def oracle(c, it):
 
 SPEC = {
     'oracle': oracle,
+    'post': post,
     'id': 'C06', 'sub': 'lsim', 'gen_cases': gen_cases, 'nontrivial': trace_has_output,
     'rule': 'random C06-profile configs (all five one-shot variants, key / output chord / layer-while-held inner, 1-3 one-shot keys plus plain keys, rapid-event-delay {default,1,20}) x consistent histories with gaps {0,1,T-1,T,T+1}; plus >16 stacked one-shots' + '; non-trivial = distinct (config, trace) with output',
     'explanation': 'theorems: expiry exactly at T for every T (induction), end clears everything, press/release variant end conditions, deferred own release, pcancel, inactive one-shot is inert',
